@@ -260,3 +260,18 @@ M("c06.empty-cell-not-substituted", "C06", MOD, "                placeholder = u
 M("c06.only-first-examples-block", "C06", MOD, "        for example_index, example in enumerate(scenario_outline.examples):\n            example.index = example_index+1",
   "        for example_index, example in enumerate(scenario_outline.examples[:2]):\n            example.index = example_index+1")
 M("c06.remove-column-keeps-cells", "C06", MOD, "        for row in self.rows:\n            assert column_index < len(row.cells)\n            del row.cells[column_index]", "        for row in self.rows[:1]:\n            assert column_index < len(row.cells)\n            del row.cells[column_index]")
+
+# ---- C10 -------------------------------------------------------------------
+M("c10.bisect-off-by-one", "C10", RU, "            pos = bisect(self._line_numbers, line) - 1\n            pos = max(0, pos)\n            run_item = self._line_entities[pos]", "            pos = bisect(self._line_numbers, line)\n            pos = min(len(self._line_entities) - 1, max(0, pos))\n            run_item = self._line_entities[pos]")
+# (dropping the (0, feature) entry is equivalent: a miss below the first entry falls back to the first entry, the feature)
+M("c10.rows-not-in-line-data", "C10", RU, "        elif isinstance(entity, ScenarioOutline):\n            run_items = entity.scenarios\n\n        line_data.append", "        elif isinstance(entity, ScenarioOutline):\n            run_items = []\n\n        line_data.append")
+M("c10.setup-teardown-exemption-removed", "C10", RU, "            if \"setup\" in scenario.tags or \"teardown\" in scenario.tags:\n                continue", "            if \"setup\" in scenario.tags:\n                continue")
+M("c10.second-location-of-same-file-dropped", "C10", RU, "        if location.filename == scenario_collector.filename:\n            scenario_collector.add_location(location)\n            continue", "        if location.filename == scenario_collector.filename:\n            continue")
+M("c10.use-all-not-reset-between-files", "C10", RU, "        self.feature = None\n        self.filename = None\n        self.use_all_scenarios = False\n        self.scenario_lines = set()\n        self.all_scenarios = set()\n        self.selected_scenarios = set()\n\n    def add_location",
+  "        self.feature = None\n        self.filename = None\n        self.scenario_lines = set()\n        self.all_scenarios = set()\n        self.selected_scenarios = set()\n\n    def add_location")
+M("c10.rule-selects-only-direct-scenarios", "C10", RU, "        elif isinstance(run_item, Rule):\n            scenarios = list(run_item.walk_scenarios())", "        elif isinstance(run_item, Rule):\n            scenarios = list(run_item.scenarios)")
+M("c10.name-select-uses-match", "C10", MOD, "        return not config.name or config.name_re.search(self.name)", "        return not config.name or config.name_re.match(self.name)")
+# (a non-greedy filename group in the location regex is equivalent: the line group is anchored at the end)
+M("c10.listfile-relative-to-cwd", "C10", RU, "        here = os.path.dirname(filename) or \".\"", "        here = \".\"")
+M("c10.outline-name-select-first-row-only", "C10", MOD, "        for scenario in self.scenarios:     # -- REQUIRE: BUILD-SCENARIOS\n            if scenario.should_run_with_name_select(config):\n                return True\n        # -- NOTHING SELECTED:\n        return False",
+  "        for scenario in self.scenarios[:1]:     # -- REQUIRE: BUILD-SCENARIOS\n            if scenario.should_run_with_name_select(config):\n                return True\n        # -- NOTHING SELECTED:\n        return False")
